@@ -12,7 +12,7 @@ SCHED_NOTE = ('Theorems are about the Gallina model coq/theories/Sched.v (jobs, 
               'failing user code) and every fuel for runs that do not exhaust the fuel. The model is tied to /repo by the '
               'correspondence check: generated histories are run on the real JobBuilder/AsyncScheduler under a virtual '
               'clock and compared operation by operation with the model evaluated inside Coq (vm_compute). Assumes one '
-              'clock (loop clock = wall clock), instants on the 2^-9 s grid, no re-entrant scheduler calls from '
+              'clock (loop clock = wall clock), integer-nanosecond instants (a 2^-9 s grid plus off-grid advances), no re-entrant scheduler calls from '
               'synchronous callables. No axioms.')
 CLAIMS = {
     'C01': ('invariant of the scheduler core proved by induction on fuel and on the history (run_inv), timer armed for '
@@ -90,7 +90,7 @@ CLAIMS.update({
             'when an admissible grid point exists within the fuel; never-accepting filter refuted (F9, known finding). '
             'cost_bound (closed form of the loop bounds); wall-clock budget per call in the correspondence; known findings F9 F17 F19', P_NOTE, '6/C16'),
     'C19': ('every row of the property for all tables / now / arguments: none=now, durations, identity rows, naive = system '
-            'local, time of day = today-or-tomorrow and (under wf_tz + dates-forward) the LEAST instant >= now showing it, '
+            'local, time of day = today-or-tomorrow and (under wf_tz_b + dates-forward) the LEAST instant >= now showing it, '
             'positivity, past tolerance tied to the generated constant. The refusal of a time that is skipped/repeated today '
             'is the known finding F15',
             'Model coq/theories/GetInstant.v over Time.v tables; string/float parsing is whenever\'s and outside the model. '
@@ -142,7 +142,7 @@ CLAIMS['C03'] = ('single_job_exact: for every history OAt + any interleaving of 
     'duplicated; next run = next occurrence after the execution instant. disturbed_job_exact: the same for a recurring job among any other jobs and operations on them', SCHED_NOTE + ' ' + P_NOTE, '6/C03 + 11')
 CLAIMS['C05'] = ('interval_earliest, time_earliest (earliest admissible occurrence over ALL local days, tables with spread <= 4 h), '
     'group_earliest / tig_earliest (time / interval-with-start / groups to any depth with member and group filters), grid '
-    'stability - all proved', P_NOTE, '6/C05 + 11')
+    'stability, completeness with its exact horizon (ProdComplete) - all proved; known finding F18', P_NOTE, '6/C05 + 11')
 CLAIMS['C06'] = ('candidates_spec; replace follows the 4x4 policy table (proved per row); day_results_order, once_per_day, '
     'once_per_day_chain: the chain enumerates the union over local days in increasing order without omission or repetition '
     '(tables with spread <= 4 h)', P_NOTE, '6/C06 + 11')
@@ -159,7 +159,7 @@ CLAIMS['C09'] = ('queue sorted in every reachable state; wake_order / enable_ord
 CLAIMS['C10'] = ('failures_isolated: for every history, erasing the handler events of failing callables / callbacks gives exactly '
     'the failure-free run (same outcomes, same final state); handled_exactly_once; invariant and never-early under any failure '
     'environment; F5_refuted (a trigger raising inside execute makes run_jobs diverge: known finding)',
-    SCHED_NOTE + ' The asynchronous executor path is modelled on top of TaskMgr.v (AsyncExec.v, 17 theorems) with its own correspondence.', '6/C10 + 11')
+    SCHED_NOTE + ' The asynchronous executor path is modelled on top of TaskMgr.v (AsyncExec.v / AsyncExecFacts.v, 17 theorems restated in props/C10.v) with its own correspondence.', '6/C10 + 11')
 CLAIMS['C13'] = ('offset_exact, earliest / latest clamp = max / min with the policy-selected bound on the occurrence\'s local day, '
     'unchanged within the bound (hypotheses stated), clamp_same_day, never_beyond_bound, offset_chain_complete, jitter_window '
     '+ jitter_shift_forward_window - proved', P_NOTE, '6/C13 + 11')
@@ -171,7 +171,7 @@ CLAIMS['C15'] = ('builder_noninterference (every builder call only appends; exis
     CLAIMS['C15'][1], '6/C15 + 11')
 CLAIMS['C16'] = ('loop/call skeleton regenerated from /repo equals the expected one; cost_bound: for EVERY expression the number of '
     'loop rounds is bounded by a closed form of the generated loop bound (99 999 per nesting level; interval: its fuel); '
-    'interval_terminates; interval_unsat_refuted (F9, known finding)', P_NOTE, '6/C16 + 11')
+    'interval_terminates; interval_unsat_refuted (F9); known findings F9 F17 F19', P_NOTE, '6/C16 + 11')
 
 # second tie: statement-level translators regenerate Gallina from the sources on every run; Gen*Eq.v proves it equal to the model
 TIES = {
@@ -184,14 +184,14 @@ TIES = {
     'C07': 'gen_jobs.py (set_next_run, callbacks, API operations against step_op), gen_builder.py (store, controls)',
     'C08': 'gen_jobs.py (one-shot / countdown classes: update_next, reset, set_countdown)',
     'C09': 'gen_sched.py (insort / run_jobs loop), gen_jobs.py (__lt__ = job_lt)',
-    'C10': 'gen_sched.py (try / except of run_jobs), gen_jobs.py (JobCallbackHandler.run), gen_builder.py (SyncExecutor, AsyncExecutor._execute = wrap_beh)',
+    'C10': 'gen_sched.py (try / except of run_jobs), gen_builder.py + gen_taskmgr.py (GenAsyncSystem: generated executor on generated managers); the C10_generated_system_* theorems of the generated history machine are stated in props/C01.v',
     'C11': 'gen_taskmgr.py (the three sequential classes: gen_create_task_is_submit, gen_done_cb_is_model)',
     'C12': 'gen_taskmgr.py (the two parallel classes)',
     'C13': 'gen_prod.py (the four apply_operation bodies and the operation loop)',
     'C14': 'gen_prod.py (offset / jitter)',
-    'C15': 'gen_trig.py (builder calls and copy over a heap of objects: gen_run_is_model, copy_prod_spec), gen_prod.py',
-    'C16': 'gen_prod.py + gen_facts.py (loop bounds), gen_sun.py',
-    'C17': 'gen_parse.py (argument parser; name tables computed in Coq from the source literals), gen_prod.py (filter allow methods)',
+    'C15': 'gen_trig.py (builder calls and copy over a heap of objects: gen_run_is_model, copy_prod_spec)',
+    'C16': 'gen_prod.py + gen_facts.py (loop bounds, sun_tries)',
+    'C17': 'gen_parse.py (argument parser; name tables computed in Coq from the source literals); the filter allow methods are tied in props/C05.v / GenProdEq.v',
     'C18': 'gen_sun.py (gen_get_next_sun_eq, gen_get_next_is_model_sun)',
     'C19': 'gen_instant.py (get_instant, get_time, get_pos_timedelta_secs)',
     'C20': 'gen_dst.py (dst_param.py for any table; DstFacts restated for the generated code)',
